@@ -57,6 +57,13 @@ CHECKS = {
             "(every callback with arguments, statuses, completions, values, raw database rows), and the C trace "
             "satisfies C01's value oracle.",
             "Restricted to what core.h can express (no signatures, prior values, single-use, cancel).", "DESIGN 2/C20"),
+    "C19": ("exploration", "libfuzzer",
+            "coverage-guided fuzzing (libFuzzer, ASan+UBSan, exact-size buffers) with in-target tiling/EOF/bounds/termination oracles; structure-aware YAML shape decoding",
+            "No crash, sanitizer report, failed assertion or oracle trap in N executions per target across the three "
+            "hand-written parsers, the Ninja loader and the build-description loader (shape-generated YAML), from "
+            "seeded and empty corpora; committed regression inputs of seven repaired defects replay clean.",
+            "Absence is never established; -seed pins a campaign only approximately (the saved artefact is the "
+            "reproducible unit); leak detection off; YAML scalars are NUL-free.", "DESIGN 2/C19"),
 }
 
 NOT_APPLICABLE = {
@@ -99,6 +106,8 @@ def main():
             "add_only": True,
         },
         "engines": [
+            {"name": "libfuzzer", "path": "fuzz/ + pbt/c19.py", "serves_properties": ["C19"],
+             "kind_free_text": "five libFuzzer targets (clang-14 -fsanitize=fuzzer,address,undefined) with semantic oracles inside the targets"},
             {"name": "hypothesis+enginesim", "path": "pbt/ + harness/enginesim.cpp",
              "serves_properties": [p for p in sorted(CHECKS) if CHECKS[p][1] == "hypothesis+enginesim"],
              "kind_free_text": "Hypothesis 6.168 stateful-style history generation driving a C++ script executor "
